@@ -1223,4 +1223,20 @@ example : (match fieldsMappingP exSchema false exReq [["parent"], ["tags"]] with
 shifts the second `if` (client.py used to raise IndentationError). -/
 theorem cross_two_repeated_regression (samePkg : Bool) (es : List Entry) : emitIndentOk samePkg es = true := rfl
 
+/-- **every flattened key is applied by exactly one pass of the sync macro**, whatever the package
+situation and the owner: the guard of the extend/update pass is the negation of the guard of the
+assignment pass.  (A repeated key of a request in a DIFFERENT package whose types are nevertheless
+proto-plus — a sub-package of the API, or a `proto-plus-deps` package — is taken by the second pass
+through `<different package>`, not through the owner test.) -/
+theorem sync_passes_partition (samePkg : Bool) (b : Bound) :
+    (b.1.repeated && (!samePkg || b.1.rawOwner)) = !(!b.1.repeated || (samePkg && !b.1.rawOwner)) := by
+  cases b.1.repeated <;> cases samePkg <;> cases b.1.rawOwner <;> rfl
+
+/-- sub-package request (`acme.lib.v1.common.Sub0Request`, key `tags`: repeated, proto-plus owner,
+package differs from the service's): both clients send the list -/
+example : call false false .none [(⟨[2], true, false, false, some 2, false, false⟩, some (.list ["a", "b"]))] =
+      .ok (.mcons 2 (.list ["a", "b"]) .mnil) ∧
+    call false true .none [(⟨[2], true, false, false, some 2, false, false⟩, some (.list ["a", "b"]))] =
+      .ok (.mcons 2 (.list ["a", "b"]) .mnil) := by decide
+
 end GapicModel.Props.C05
